@@ -89,6 +89,24 @@ Theorem keeping_flag_for_closure_is_wrong :
     ~ Wf fs_dom (MapAssign fs_dom fs_close true s).
 Proof. exact PSDom.keeping_flag_for_closure_is_wrong. Qed.
 
+(* concatenate_assign, including its "Hurry up!" branch taken when abandon_expensive_computations is found raised
+   (any schedule [hurry] of the flag): no concatenation of a point of x with a point of y is ever lost; without
+   abandonment the result is exactly the set of concatenations and the flag stays set *)
+Theorem concatenate_never_loses : forall d, laws d -> forall conc ubx uby (Rel : dP d -> dP d -> dP d -> Prop) hurry y s q,
+  (forall a b p1 p2 q, dden d a p1 -> dden d b p2 -> Rel p1 p2 q -> dden d (conc a b) q) ->
+  (forall a b p, dden d a p \/ dden d b p -> dden d (ubx a b) p) ->
+  (forall a b p, dden d a p \/ dden d b p -> dden d (uby a b) p) ->
+  (exists p1 p2, Den d s p1 /\ Den d y p2 /\ Rel p1 p2 q) -> Den d (Concatenate d hurry conc ubx uby y s) q.
+Proof. exact T_concatenate_never_loses. Qed.
+Theorem concatenate_exact : forall d, laws d -> forall conc ubx uby (Rel : dP d -> dP d -> dP d -> Prop) y s q,
+  (forall a b p1 p2 q, dden d a p1 -> dden d b p2 -> Rel p1 p2 q -> dden d (conc a b) q) ->
+  (forall a b q, dden d (conc a b) q -> exists p1 p2, dden d a p1 /\ dden d b p2 /\ Rel p1 p2 q) ->
+  (forall a b p, dden d a p \/ dden d b p -> dden d (ubx a b) p) ->
+  (forall a b p, dden d a p \/ dden d b p -> dden d (uby a b) p) ->
+  (Den d (Concatenate d never conc ubx uby y s) q <-> exists p1 p2, Den d s p1 /\ Den d y p2 /\ Rel p1 p2 q) /\
+  Flag d (Concatenate d never conc ubx uby y s) = true.
+Proof. exact T_concatenate_exact. Qed.
+
 (* strictly_contains: omega-reduces BOTH operands (same unions, really reduced) and a positive answer
    implies geometric containment *)
 Theorem strictly_contains_sound : forall d, laws d -> forall x y,
